@@ -23,6 +23,8 @@ Called from extract.py (`gen_tx`).  Extracted from /repo/src (comments stripped)
                          the pushed keys after its loop;
   * `Gen.queueClearedWhenTransactionEnds`  `handle_multi` clears the queue, or every exit of `handle_exec`
                          that leaves the transaction and `handle_discard` clear / take it;
+  * `Gen.watchSetClearedWhenTransactionEnds`  `handle_discard` and every exit of `handle_exec` clear `watched_keys`;
+  * `Gen.deferredFramesFirst`  in `process_connection` the frames kept back behind a blocking pop come before the socket read;
   * `Gen.txUnrecognised`  what could NOT be read off the source.  Every fact is extracted on its own; a
                          shape that is not recognised yields the PESSIMISTIC value (the deviation is assumed)
                          and an entry here, never a definition that does not elaborate: the model and the
@@ -133,6 +135,21 @@ def facts(src, strip_comments, fn_body, repo=None):
         out["queue_cleared"] = bool(multi_clears or exits_clear)
         out["queue_cleared_detail"] = (multi_clears, exits_clear)
 
+    # ---- WATCH set dropped wherever a transaction ends (DISCARD, every exit of handle_exec that leaves the transaction)
+    out["watch_cleared"] = None
+    if hd is not None and he is not None:
+        wc = r"watched_keys\s*\.\s*clear\(\)"
+        exits = len(re.findall(r"in_transaction\s*=\s*false", he))
+        if exits > 0 and "in_transaction = false" in hd:
+            out["watch_cleared"] = bool(re.search(wc, hd) is not None and len(re.findall(wc, he)) >= exits)
+    # ---- frames kept back behind a blocking pop run before what arrived later
+    out["deferred_first"] = None
+    if pc is not None:
+        i_def = pc.find("frames_to_process.append(&mut conn.deferred_frames)")
+        i_read = pc.find("conn.read()")
+        if i_def >= 0 and i_read >= 0:
+            out["deferred_first"] = i_def < i_read
+
     # ---- SELECT / blocking pops inside EXEC
     out["select_ignored"] = None
     if pcp is not None and he is not None:
@@ -216,6 +233,12 @@ def generate(src, strip_comments, fn_body, header, repo=None):
          "(refused by WATCH, flagged, run) and `handle_discard` clear or take it",
          "queueClearedWhenTransactionEnds", "Bool", None if f["queue_cleared"] is None else b(f["queue_cleared"]), "false",
          "handle_multi / handle_discard / handle_exec not recognised")
+    item("the WATCH set ends with the transaction: `handle_discard` and every exit of `handle_exec` that leaves the transaction clear `watched_keys`",
+         "watchSetClearedWhenTransactionEnds", "Bool", None if f["watch_cleared"] is None else b(f["watch_cleared"]), "false",
+         "handle_discard / exits of handle_exec not recognised")
+    item("`process_connection` puts `conn.deferred_frames` (the rest of a batch kept back behind a blocking pop that blocked) in front of what it reads from the socket",
+         "deferredFramesFirst", "Bool", None if f["deferred_first"] is None else b(f["deferred_first"]), "false",
+         "`frames_to_process.append(&mut conn.deferred_frames)` / `conn.read()` not found in process_connection")
     L.append("/-- what translator/tx_facts.py could not read off the source (pessimistic values above) -/")
     L.append("def txUnrecognised : List String := [%s]" % ", ".join('"%s"' % u.replace("\\", "/").replace('"', "'") for u in unknown))
     L += ["", "end Ferrous.Gen", ""]
